@@ -9,7 +9,7 @@ pub const VTYPES: [&str; 14] = [
 ];
 pub const PROFILES: [&str; 13] =
     ["std", "lm", "values", "utf8", "serial", "invalid", "nfb", "perm", "mixed", "vacant", "exh", "big", "wide"];
-const NFBS: [u32; 6] = [1, 2, 3, 4, 16, 64];
+const NFBS: [u32; 7] = [1, 2, 3, 4, 16, 64, 256];
 
 type Sym = u32;
 type Word = Vec<Sym>;
@@ -316,6 +316,10 @@ fn mk(s: Spec, utf8: bool, set: &[Word], vals: Option<&[String]>, hs: &[Word]) -
 }
 
 fn pick_nfb(r: &mut Rng) -> u32 {
+    if r.pct(2) {
+        // far more free blocks than the array will ever have
+        return r.pick(&[255u32, 256, 257, 1000]);
+    }
     if r.pct(60) {
         16
     } else if r.pct(70) {
